@@ -125,6 +125,30 @@ def corr(ctx):
                             what["ones_to_zero"] = down; what["ones"] = n1
                         ops.append(Op("bsc 0 0 0", "0", nontrivial=False, info={"site": "channels:%s.view" % cname, "config": what}, prop_ok=bool(ok)))
                         ctx.count("noncontiguous_views")
+    # ---- constant inputs (all ones, all zeros, a single symbol sent on its own): data-derived level detection must not turn the
+    #      channel into the identity; deterministic extremes exactly, rates Chernoff-bounded
+    for shape in ((1,), (5000,), (50, 100)):
+        for val, alphabet in ((1, "bin"), (0, "bin")):
+            for dtype in (torch.float32, torch.int64, torch.bool):
+                x = torch.full(shape, val).to(dtype)
+                nx = x.numel()
+                for p in (0.0, 0.3, 1.0):
+                    seedc += 1
+                    for cname, ch in (("BinarySymmetricChannel", BinarySymmetricChannel(p)), ("BinaryErasureChannel", BinaryErasureChannel(p)), ("BinaryZChannel", BinaryZChannel(p))):
+                        x_before = x.clone()
+                        torch.manual_seed(seedc)
+                        y = ch(x)
+                        yi = y.to(torch.float64).round().to(torch.int64)
+                        changed = int((yi != val).sum())
+                        ok = bool((x == x_before).all()) and tuple(y.shape) == tuple(x.shape)
+                        if cname == "BinaryZChannel" and val == 0:
+                            want = "none"; ok = ok and changed == 0
+                        elif cname == "BinaryErasureChannel":
+                            want = "erasures"; ok = ok and bool(((yi == val) | (yi == -1)).all()) and (changed == 0 if p == 0 else changed == nx if p == 1 else (nx < 100 or _chernoff_ok(changed, nx, p)))
+                        else:
+                            want = "flips"; ok = ok and set(yi.flatten().tolist()) <= {0, 1} and (changed == 0 if p == 0 else changed == nx if p == 1 else (nx < 100 or _chernoff_ok(changed, nx, p)))
+                        ops.append(Op("bsc 0 0 0", "0", nontrivial=False, info={"site": "channels:%s.constant" % cname, "config": {"value": val, "shape": list(shape), "dtype": str(dtype), "p": p, "changed": changed, "of": nx, "expected": want}}, prop_ok=bool(ok)))
+                        ctx.count("constant_inputs")
     # ---- large re-seeded runs: the transition law on the regenerated draws, symbol by symbol (vectorised oracle)
     nbig = 2_000_000
     for p in (1e-3, 0.37):
@@ -196,6 +220,14 @@ def search(ctx, mismatches, broken, prop_fail):
         if site.endswith(".rate"):
             out.append({"site": site, "config": cfg, "kind": "failing-input", "ops": [],
                         "what": "%s: %d events in %d symbols (rate %.6g) / %d adjacent event pairs - outside the Chernoff bound for independent events of the configured probability (false-alarm probability < 5e-10)" % (cfg.get("case"), cfg.get("events"), cfg.get("n"), cfg.get("rate"), cfg.get("adjacent_pairs"))})
+            continue
+        if site.endswith(".view") or site.endswith(".constant"):
+            kind = "a non-contiguous %s view" % cfg.get("view") if site.endswith(".view") else "a constant input (every symbol = %s, shape %s)" % (cfg.get("value"), cfg.get("shape"))
+            out.append({"site": site, "config": cfg, "kind": "failing-input", "ops": [],
+                        "what": "%s on %s, dtype %s, p=%s: %s - the transition law demands %s (input unmodified, output in the alphabet)" % (
+                            site.split(":")[1].split(".")[0], kind, cfg.get("dtype"), cfg.get("p"),
+                            {k_: v_ for k_, v_ in cfg.items() if k_ in ("flips", "erased", "ones_to_zero", "ones", "changed", "of")},
+                            "no change" if cfg.get("p") == 0 else "every eligible symbol changed" if cfg.get("p") == 1 else "a rate of p among the eligible symbols")})
             continue
         toks = pf["op"].split()
         law = _law(toks)
